@@ -912,5 +912,50 @@ func tputsGrammar(c *Ctx, p *Prog, fn *ssa.Function, rule string, skipTerm ssa.I
 			hasDigits = true
 		}
 	}
+	// the delay: every digit after the point divides the unit by ten (n.mm is n + mm/100 ms)
+	{
+		okScale, detail := false, "no `unit /= 10` in the digit case"
+		eachInstr(fn, func(in ssa.Instruction) {
+			bo, ok := in.(*ssa.BinOp)
+			if !ok || bo.Op != token.QUO {
+				return
+			}
+			if k, ok := constInt(bo.Y); !ok || k != 10 {
+				return
+			}
+			if _, isPhi := bo.X.(*ssa.Phi); !isPhi {
+				return
+			}
+			if isDigitCase(bo.Block()) || func() bool {
+				for x := bo.Block(); x != nil; x = x.Idom() {
+					if isDigitCase(x) {
+						return true
+					}
+				}
+				return false
+			}() {
+				okScale, detail = true, "unit /= 10 per digit after the point"
+			}
+		})
+		// and no constant unit is installed when the point is seen
+		eachInstr(fn, func(in ssa.Instruction) {
+			phi, ok := in.(*ssa.Phi)
+			if !ok || phi.Comment != "unit" {
+				return
+			}
+			nconst := 0
+			for _, e := range phi.Edges {
+				if _, isK := e.(*ssa.Const); isK {
+					nconst++
+				}
+			}
+			if nconst > 1 {
+				okScale, detail = false, "the unit is set to a constant in more than one place (a fixed unit after the point ignores the number of fraction digits)"
+			}
+		})
+		if rule == "C15-R5" {
+			c.Check(okScale, rule, "TPuts:fraction-scales-unit", p.pos(fn.Pos()), detail)
+		}
+	}
 	c.Check(hasValid && hasDigits, rule, "TPuts:well-formed-only", p.pos(skipTerm.Pos()), fmt.Sprintf("the terminator is skipped only when no byte was rejected (%v) and a digit was seen (%v)", hasValid, hasDigits))
 }
